@@ -41,6 +41,7 @@ def step (line : String) : String :=
   | "re" :: rest => VC2.Model.SymRe.handleRe rest
   | "fd" :: rest => VC2.Model.FixedDict.handleFd rest
   | "vd" :: rest => VC2.Model.Stream.handleVd rest
+  | "cs" :: rest => VC2.Model.Stream.handleCs rest
   | "cf" :: rest => VC2.Model.CodecCsv.handleCf rest
   | "ci" :: rest => VC2.Model.CodecCsv.handleCi rest
   | "af" :: rest => VC2.Model.Autofill.handleAf rest
